@@ -404,6 +404,29 @@ def case_select(ctx, spec):
         if got_l is None or set(got_l) != set(exp):
             raise Violation("ResolveOnTheRun(flags=%s) at %s from %s resolved to %s, expected %s (aliases %s, row %s)" % (flags, ds[i], prior, got_l, exp, {a: f["cols"][a][i] for a in aliases}, row), signature=sig + ":set")
         kept, filtered_out = len(exp), len(prior) - len(exp) + sum(1 for a in prior if a in aliases)
+        # the documented way to feed aliases is SelectThese(aliases, include_no_data=True); the same two instances are then called on
+        # every date of a run, and each date resolves afresh (the on-the-run table rolls, securities mature)
+        if any(a in aliases for a in prior):
+            feeder = A.SelectThese(list(prior), include_no_data=True)
+            resolver = A.ResolveOnTheRun(p["frame"], **flags)
+            for j in range(i, len(ds)):
+                strat.update(b.dates[j + 1])
+                strat.temp = {}
+                try:
+                    feeder(strat)
+                    resolver(strat)
+                except Exception as e:
+                    raise Violation("SelectThese + ResolveOnTheRun on %s raised %s: %s" % (ds[j], type(e).__name__, str(e)[:120]), signature=sig + ":raises")
+                rowj = {t: pr[t][j] for t in uni}
+                resj = [f["cols"][a][j] for a in prior if a in aliases]
+                expj = [t for t in dict.fromkeys(resj) if tradable(rowj[t], flags)] + [t for t in prior if t not in aliases]
+                gotj = list(strat.temp.get("selected") or [])
+                if set(gotj) != set(expj):
+                    raise Violation(
+                        "SelectThese(%s, include_no_data=True) + ResolveOnTheRun(flags=%s) called on every date from %s: on %s resolved to %s, expected %s (aliases %s, row %s)" % (prior, flags, ds[i], ds[j], gotj, expj, {a: f["cols"][a][j] for a in aliases}, rowj),
+                        signature=sig + ":sequence",
+                    )
+            labs.append("resolved_on_several_dates")
     # universe scoping
     if got_l is not None and algo_name in ("SelectAll", "SelectHasData", "SelectWhere", "SelectRandomly", "SelectMomentum"):
         extra = [t for t in got_l if t not in uni]
